@@ -583,6 +583,11 @@ func (env *Env) evalCall(x *ast.CallExpr) Val {
 			ev := env.eval(x.Args[0])
 			sv := env.eval(x.Args[1])
 			return boolVal(fc.errorsIs(ev, sv))
+		case "haskey":
+			m := env.eval(x.Args[0])
+			mt := m.T.Underlying().(*types.Map)
+			k := env.typed(env.eval(x.Args[1]), mt.Key())
+			return boolVal(fc.mapHas(env.st, m, k))
 		case "samebytes":
 			// samebytes(a, b): both slices/strings have equal length and equal contents
 			a, b := env.eval(x.Args[0]), env.eval(x.Args[1])
@@ -617,6 +622,10 @@ func (env *Env) evalCall(x *ast.CallExpr) Val {
 	}
 	if t, ok := env.tryResolveType(x.Fun); ok && len(x.Args) == 1 {
 		return env.convert(env.eval(x.Args[0]), t)
+	}
+	if sel, ok := x.Fun.(*ast.SelectorExpr); ok && len(x.Args) == 0 {
+		recv := env.eval(sel.X)
+		return env.specMethod(recv, sel.Sel.Name)
 	}
 	userErr("unsupported call %s in contract", exprString(x))
 	return Val{}
@@ -703,4 +712,76 @@ func (fc *FnCtx) byteAt(st *State, b Val, idx string) string {
 	}
 	arr := st.get("E|uint8|0", arraySort(SortRef, arraySort(bvSort(64), bvSort(8))))
 	return app("select", app("select", arr, b.L[0]), app("bvadd", b.L[1], idx))
+}
+
+// specMethod evaluates recv.m() for a side-effect free, straight-line method m (e.g. id(), readonly(), getPath()):
+// the method bodies are inlined; for an interface receiver the result is the case split over the known dynamic types.
+func (env *Env) specMethod(recv Val, mname string) Val {
+	fc := env.fc
+	fc.specDepth++
+	defer func() { fc.specDepth-- }()
+	saved := fc.cur
+	savedN := len(fc.obls)
+	defer func() { fc.obls = fc.obls[:savedN] }()
+	if !isInterface(recv.T) {
+		sel := fc.eng.prog.MethodSets.MethodSet(recv.T).Lookup(env.pkg, mname)
+		if sel == nil {
+			userErr("no method %s on %s", mname, recv.T)
+		}
+		fn := fc.eng.prog.MethodValue(sel)
+		if fn == nil || !fc.eng.inlineable(fn) || !fc.eng.summary(fn).empty() {
+			userErr("method %s of %s is not a pure straight-line method", mname, recv.T)
+		}
+		sub := env.st.derive()
+		fc.cur = sub
+		r := fc.inline(fn, []Val{recv}, nil, token.NoPos, callResultTypeOf(fn))
+		fc.cur = saved
+		return r
+	}
+	iface := recv.T.Underlying().(*types.Interface)
+	var resT types.Type
+	for i := 0; i < iface.NumMethods(); i++ {
+		if iface.Method(i).Name() == mname {
+			sig := iface.Method(i).Type().(*types.Signature)
+			if sig.Results().Len() != 1 {
+				userErr("spec method %s must have one result", mname)
+			}
+			resT = sig.Results().At(0).Type()
+		}
+	}
+	if resT == nil {
+		userErr("no method %s in %s", mname, recv.T)
+	}
+	res := fc.freshVal("spec_"+mname, resT)
+	var facts []string
+	facts = append(facts, fc.wfFacts(res))
+	for _, kt := range fc.eng.knownTypes() {
+		if !types.Implements(kt, iface) {
+			continue
+		}
+		sel := fc.eng.prog.MethodSets.MethodSet(kt).Lookup(env.pkg, mname)
+		if sel == nil {
+			continue
+		}
+		fn := fc.eng.prog.MethodValue(sel)
+		if fn == nil || !fc.eng.inlineable(fn) || !fc.eng.summary(fn).empty() {
+			continue
+		}
+		cond := eq(recv.L[0], fc.tagOf(kt))
+		sub := env.st.derive()
+		sub.assume(cond)
+		fc.cur = sub
+		rv := fc.unboxIface(env.st, recv, kt)
+		r := fc.inline(fn, []Val{rv}, nil, token.NoPos, resT)
+		fc.cur = saved
+		var eqs []string
+		for k := range r.L {
+			eqs = append(eqs, eq(res.L[k], r.L[k]))
+		}
+		facts = append(facts, implies(cond, and(eqs...)))
+	}
+	if fc.cur != nil {
+		fc.cur.assume(and(facts...))
+	}
+	return res
 }
